@@ -105,7 +105,7 @@ SeenBefore(m, s) ==
     \/ \E x \in Range(vals) : x.m = m /\ x.s < s /\ x.e = "call"
     \/ \E x \in Range(prs) : x.m = m /\ x.s < s /\ x.err = ""
 
-PubSteps(m) == {x.s : x \in {y \in Range(acts) : y.a = "pub" /\ y.m = m}}
+PubSteps(m) == {x.s : x \in {y \in Range(acts) : y.a \in {"pub", "badd"} /\ y.m = m}}   \* Topic.Publish / Topic.AddToBatch
 PubRets(m)  == {x \in Range(prs) : x.m = m}
 
 \* ------------------------------------------------------------------ the predicates
@@ -147,7 +147,7 @@ PenOf(p) == LET S == {x \in Range(pen) : x.p = p} IN IF S = {} THEN 0 ELSE (CHOO
 JudgePen(p) ==
     LET lo == SetSum(msgs, LAMBDA m : IF Charge(p, m) > 0 THEN 1 ELSE 0)
         hi == SetSum(msgs, LAMBDA m : Charge(p, m))
-    IN IF lo <= PenOf(p) /\ PenOf(p) <= hi THEN TRUE
+    IN IF (\E x \in Range(pen) : x.p = p) => (lo <= PenOf(p) /\ PenOf(p) <= hi) THEN TRUE   \* (incl. the retained record of a peer that left)
        ELSE Report("P_C04_Penalty", "*", "invalid-delivery counter of a peer outside what the rejected ids it forwarded prescribe",
                    [p |-> p, counter |-> PenOf(p), lo |-> lo, hi |-> hi,
                     rejected |-> {m \in msgs : AnyReject(m) /\ RemotePass(m)}])
